@@ -23,6 +23,9 @@ func (tags Tags) Validate(ctx context.Context, opts ...ValidationOption) error {
 	ctx = WithValidationOptions(ctx, opts...)
 
 	for _, v := range tags {
+		if v == nil {
+			return fmt.Errorf("invalid tag: value MUST be an object")
+		}
 		if err := v.Validate(ctx); err != nil {
 			return err
 		}
